@@ -3,21 +3,31 @@
 package distinct
 
 import (
-	"math"
 	"math/rand/v2"
-
-	"github.com/creachadair/mds/mapset"
 )
 
-// NewCounterWithSource is NewCounter with the random source supplied by the caller
+// VerifSetSource makes src the random source of c and reports whether it could: the field must be
+// able to hold an arbitrary rand.Source.  (Written so that it compiles whatever the type of the
+// field is: when a change narrows the field to a concrete generator the scripted correspondence
+// can no longer be run, but the harness still builds and its statistical step, which uses the
+// public API only, still runs.)
 // (verification hook: add-only, compiled only under the build tag verif).
-func NewCounterWithSource[T comparable](size int, src rand.Source) *Counter[T] {
-	return &Counter[T]{
-		buf: make(mapset.Set[T]),
-		cap: size,
-		p:   math.MaxUint64,
-		rng: src,
+func (c *Counter[T]) VerifSetSource(src rand.Source) bool {
+	p, ok := any(&c.rng).(*rand.Source)
+	if ok {
+		*p = src
 	}
+	return ok
+}
+
+// NewCounterWithSource is NewCounter -- the real constructor -- with the random source replaced by
+// the caller's before anything was drawn from it; nil if the source cannot be replaced.
+func NewCounterWithSource[T comparable](size int, src rand.Source) *Counter[T] {
+	c := NewCounter[T](size)
+	if !c.VerifSetSource(src) {
+		return nil
+	}
+	return c
 }
 
 // VerifP reports the current threshold.
